@@ -25,6 +25,9 @@ pub enum Ending {
     Exit,
     /// the controller closes its sending half after `after_bytes` bytes (possibly inside a line)
     HalfClose { after_bytes: usize },
+    /// the guest ends in an instruction that fails: run() returns the error and the shipped `main` unwraps it -
+    /// the Cpu is dropped while the main thread unwinds
+    Fault,
 }
 
 #[derive(Clone, Debug, Serialize, Deserialize)]
@@ -41,6 +44,14 @@ pub struct Scn {
     /// None: a main that waits for its worker threads.
     #[serde(default)]
     pub exit_after: Option<u32>,
+    /// bound of the emulator-to-controller stream buffer in bytes (0 = unbounded): the send worker's writes block
+    /// while the controller is behind
+    #[serde(default)]
+    pub sock_cap: usize,
+    /// Some((after, polls)): a slow peer - once `after` bytes have arrived the controller stops reading for `polls`
+    /// simulated milliseconds (one scheduling step each), then goes on
+    #[serde(default)]
+    pub reader_stall: Option<(usize, u32)>,
     /// shuttle scheduler: 0 = random, d > 0 = PCT of depth d
     pub pct_depth: usize,
     pub sched_seed: u64,
@@ -167,7 +178,7 @@ fn stream_bytes(scn: &Scn) -> Vec<u8> {
 /// One shuttle execution. Panics (inside shuttle) iff an oracle fails; the failure is left in `slot`.
 fn body(scn: &Scn, g: &Guest, slot: &Arc<Mutex<Option<ExecResult>>>) {
     let bytes = stream_bytes(scn);
-    let (emu, ctl, process) = simstd::net::pair(scn.short_io);
+    let (emu, ctl, process) = simstd::net::pair(scn.short_io, scn.sock_cap);
     simstd::net::register_incoming(emu);
     let mut ctl_w = ctl.try_clone().unwrap();
     let mut ctl_r = ctl;
@@ -202,8 +213,21 @@ fn body(scn: &Scn, g: &Guest, slot: &Arc<Mutex<Option<ExecResult>>>) {
         }
         pos
     });
+    let stall = scn.reader_stall;
     let reader = shuttle::thread::spawn(move || {
         let mut buf = Vec::new();
+        if let Some((after, polls)) = stall {
+            let mut chunk = [0u8; 64];
+            while buf.len() < after {
+                match ctl_r.read(&mut chunk) {
+                    Ok(n) if n > 0 => buf.extend_from_slice(&chunk[..n]),
+                    _ => break,
+                }
+            }
+            for _ in 0..polls {
+                simstd::thread::sleep(std::time::Duration::from_millis(1));
+            }
+        }
         let _ = ctl_r.read_to_end(&mut buf);
         buf
     });
@@ -258,8 +282,14 @@ fn body(scn: &Scn, g: &Guest, slot: &Arc<Mutex<Option<ExecResult>>>) {
         final_mem.insert(a, cpu.bus.read(a).unwrap_or(0));
     }
     let exited = final_pc == cpu.exit_addr;
-    // dropping the Cpu drops both senders: the send worker drains its queue and shuts the stream down
-    drop(cpu);
+    // `main` returns (or unwinds from `run().unwrap()` when the run ended in an error): its local `cpu` is dropped
+    if matches!(outcome, Outcome::Err(_)) {
+        simstd::thread::set_main_unwinding(true);
+        drop(cpu);
+        simstd::thread::set_main_unwinding(false);
+    } else {
+        drop(cpu);
+    }
     if let Some(k) = scn.exit_after {
         // main returns: the process is gone a few steps later, worker threads die wherever they are
         for _ in 0..k {
@@ -344,7 +374,7 @@ fn body(scn: &Scn, g: &Guest, slot: &Arc<Mutex<Option<ExecResult>>>) {
         (Ending::Stop, Outcome::Abort(_)) if stop_sent => {
             fail!(Failure::new("c18.net.stop", format!("cmd:stop was written ({} complete lines) but run() never returned within {} iterations", complete.len(), scn.step_cap)));
         }
-        (_, Outcome::Ok) | (_, Outcome::Abort(_)) => {
+        (Ending::Fault, Outcome::Err(_)) | (_, Outcome::Ok) | (_, Outcome::Abort(_)) => {
             // the guest ended on its own (or the stop never got out): the image must equal the model after SOME prefix
             if !states.iter().any(|st| matches_state(st)) {
                 fail!(Failure::new("c18.net.prefix", "the poked bytes equal the reference interpreter's state after no prefix of the lines that were sent (a line was skipped, half-applied or applied out of order)".to_string()));
@@ -548,10 +578,11 @@ impl Property for C18N {
     const ID: &'static str = "C18N";
 
     fn generate(rng: &mut Rng, tier: Tier, _i: u64) -> Scn {
-        let ending = match rng.below(5) {
-            0 | 1 | 2 => Ending::Stop,
-            3 => Ending::Exit,
-            _ => Ending::HalfClose { after_bytes: 0 },
+        let ending = match rng.below(11) {
+            0..=5 => Ending::Stop,
+            6 | 7 => Ending::Exit,
+            8 | 9 => Ending::HalfClose { after_bytes: 0 },
+            _ => Ending::Fault,
         };
         let wait_start = rng.chance(1, 2);
         // guest: a few console writes with framing-hostile texts; for Stop scenarios it never exits by itself
@@ -576,6 +607,9 @@ impl Property for C18N {
         }
         if ending == Ending::Stop {
             blocks.push(Block::Raw(vec![0x40, 0xfe])); // BRA . : only cmd:stop ends the run
+        }
+        if ending == Ending::Fault {
+            blocks.push(Block::Raw(vec![0x00, 0x00])); // NOP is not implemented: run() returns an error here
         }
         let guest = GuestSpec { blocks, handlers: vec![], code_dram: false, stack_dram: false, data_dram: rng.chance(1, 4), vec_top: 0, sub_delay: 1, init_ccr: None, stack_off: 0, exit_style: 0 };
         // script
@@ -624,7 +658,7 @@ impl Property for C18N {
         }
         match ending {
             Ending::Stop => lines.push("cmd:stop".into()),
-            Ending::Exit | Ending::HalfClose { .. } => {
+            Ending::Exit | Ending::HalfClose { .. } | Ending::Fault => {
                 let _ = started;
                 lines.push("cmd:start".into());
             }
@@ -655,6 +689,10 @@ impl Property for C18N {
                 }
             }
         }
+        // a quarter of the runs have a bounded stream buffer towards the controller; one in eight of those has a
+        // controller that stops reading for 2.2-3.5 simulated seconds somewhere in the stream
+        let sock_cap = if rng.chance(1, 4) { *rng.pick(&[1usize, 3, 8, 32, 128, 1024]) } else { 0 };
+        let reader_stall = if sock_cap > 0 && rng.chance(1, 8) { Some((rng.below(64) as usize, rng.range(2200, 3500) as u32)) } else { None };
         Scn {
             guest,
             wait_start,
@@ -663,6 +701,8 @@ impl Property for C18N {
             short_io: rng.chance(1, 2),
             ending,
             exit_after: if rng.chance(1, 2) { Some(rng.below(40) as u32) } else { None },
+            sock_cap,
+            reader_stall,
             pct_depth: 0,
             sched_seed: rng.next_u64(),
             sched_tries: 1,
@@ -697,6 +737,9 @@ impl Property for C18N {
                 }
             }
             _ => {
+                if scn.ending == Ending::Fault && !matches!(scn.guest.blocks.last(), Some(Block::Raw(b)) if b == &vec![0x00u8, 0x00]) {
+                    return Verdict::Invalid("Fault scenarios end in the failing instruction".into());
+                }
                 if stop_idx.is_some() {
                     return Verdict::Invalid("cmd:stop only in Stop scenarios".into());
                 }
@@ -733,6 +776,15 @@ impl Property for C18N {
         }
         if scn.exit_after.is_some() {
             bump(stats, "event.process_exit_race");
+        }
+        if scn.sock_cap > 0 {
+            bump(stats, "event.bounded_stream_buffer_towards_the_controller");
+        }
+        if scn.reader_stall.is_some() {
+            bump(stats, "event.controller_stops_reading_for_seconds");
+        }
+        if scn.ending == Ending::Fault {
+            bump(stats, "event.run_ends_in_an_error_and_main_unwinds");
         }
         Verdict::Pass { sig: sig.0, nontrivial: !scn.lines.is_empty() }
     }
